@@ -292,3 +292,61 @@ coerce_contract = Contract(
     properties=("C03", "C13"), min_obligations=2, no_replay=True,
 )
 CONTRACTS.append(coerce_contract)
+
+# =================================================================================================
+# MemoryBuilder._setup_standard_write: the topology of the two-gate cell — data reaches the WRITE gate only, the
+# enable reaches BOTH gates, the write gate's output feeds the hold gate and the hold gate feeds itself (both on red,
+# output -> input), and nothing else is wired.  (With the gates' conditions proved above this is the cell of C03:
+# follows v while W > 0, recirculates the last value while W = 0.)
+# =================================================================================================
+TOPO = {"sinks": [], "wires": [], "sources": []}
+
+
+def _sink_eff(ex, a):
+    TOPO["sinks"].append((a.args[0], a.args[1]))
+
+
+def _src_eff(ex, a):
+    TOPO["sources"].append((a.args[0], a.args[1]))
+
+
+def _wire_eff(ex, a):
+    TOPO["wires"].append(a.connection)
+
+
+g_add_sink = Contract(qualname="dsl_compiler/src/layout/signal_graph.py::SignalGraph.add_sink", params={"kwargs": _OPQ3}, effect=_sink_eff, verify=False, note="records the edge")
+g_set_source = Contract(qualname="dsl_compiler/src/layout/signal_graph.py::SignalGraph.set_source", params={"kwargs": _OPQ3}, effect=_src_eff, verify=False, note="records the source")
+p_add_wire = Contract(qualname="dsl_compiler/src/layout/layout_plan.py::LayoutPlan.add_wire_connection", params={"self": _OPQ3, "connection": _OPQ3},
+                      effect=_wire_eff, verify=False, note="records the wire")
+
+
+def _topo_post(a, res):
+    wg, hg = a.module.write_gate.ir_node_id, a.module.hold_gate.ir_node_id
+    d, e = a.op.data_signal, a.op.write_enable
+    want_sinks = []
+    if isinstance(d, SObj):
+        want_sinks.append((d.source_id, wg))
+    if isinstance(e, SObj):
+        want_sinks += [(e.source_id, wg), (e.source_id, hg)]
+    real = [(s, t) for (s, t) in TOPO["sinks"] if not (isinstance(s, str) or (hasattr(s, "skeleton")))]  # layout-only feedback ids are f-strings
+    same_sinks = len(real) == len(want_sinks) and all(any(s is ws and t is wt for (ws, wt) in want_sinks) for (s, t) in real)
+    ws = TOPO["wires"]
+    ok_wires = len(ws) == 2 and all(w.wire_color == "red" and w.source_side == "output" and w.sink_side == "input" and w.signal_name is a.module.signal_type for w in ws) \
+        and any(w.source_entity_id is wg and w.sink_entity_id is hg for w in ws) and any(w.source_entity_id is hg and w.sink_entity_id is hg for w in ws)
+    return bool(same_sinks and ok_wires)
+
+
+setup_write = Contract(
+    qualname=MBQ + "_setup_standard_write",
+    params={"self": ty.TObj("MemoryBuilder", only=("MemoryBuilder",)), "op": ty.TObj("IRMemWrite", only=("IRMemWrite",)),
+            "module": ty.TObj("MemoryModule", only=("MemoryModule",)), "signal_graph": ty.TOpaque("graph")},
+    requires=[("(reset)", lambda a: [TOPO[k].clear() for k in TOPO] and True)],
+    ensures=[("data -> write gate only; enable -> both gates; write gate -> hold gate and hold gate -> itself on red; nothing else", _topo_post)],
+    uses={"opaque.add_sink": g_add_sink, "opaque.set_source": g_set_source, "LayoutPlan.add_wire_connection": p_add_wire, "opaque.info": "skip", "opaque.warning": "skip"},
+    dynamic_types={"self": {"layout_plan": ty.TObj("LayoutPlan", only=("LayoutPlan",)), "diagnostics": ty.TOpaque("diag")},
+                   "op": {"data_signal": _VREF, "write_enable": _VREF, "memory_id": ty.Str},
+                   "module": {"write_gate": ty.TObj("EntityPlacement", only=("EntityPlacement",)), "hold_gate": ty.TObj("EntityPlacement", only=("EntityPlacement",)),
+                              "signal_type": ty.Str}},
+    properties=("C03",), min_obligations=2, no_replay=True,
+)
+CONTRACTS += [setup_write, g_add_sink, g_set_source, p_add_wire]
